@@ -7,7 +7,7 @@ use lef21::LefLibrary;
 use serde_json::{json, Value};
 
 pub fn commands() -> Vec<(&'static str, CmdFn)> {
-    vec![("lef_s2i", lef_s2i), ("lef_parse", lef_parse), ("lef_lex", lef_lex), ("lef_fault", lef_fault), ("lef_prefixes", lef_prefixes), ("lef_scaling", lef_scaling), ("lef_to_raw", lef_to_raw)]
+    vec![("lef_s2i", lef_s2i), ("lef_parse", lef_parse), ("lef_lex", lef_lex), ("lef_fault", lef_fault), ("lef_prefixes", lef_prefixes), ("lef_scaling", lef_scaling), ("lef_to_raw", lef_to_raw), ("lef_tokens", lef_tokens)]
 }
 
 fn strip_vk(v: &Value) -> Value {
@@ -229,4 +229,42 @@ fn lef_to_raw(case: &Value) -> Value {
     let n = probs.len();
     probs.truncate(4);
     json!({"id": id(case), "outcome":"ok", "nproblems": n, "problems": probs})
+}
+
+/// An independent LEF tokenizer (white space, `#` comments, quoted strings, `;`) for the grammar acceptor
+/// specs/lef/LefGrammar.tla: words are upper-cased (keywords are case-insensitive; names are only compared with each other).
+pub fn indep_tokens(text: &str) -> Vec<Value> {
+    let mut out = Vec::new();
+    let cs: Vec<char> = text.chars().collect();
+    let mut i = 0;
+    let is_num = |w: &str| -> bool {
+        let b = w.strip_prefix('-').or_else(|| w.strip_prefix('+')).unwrap_or(w);
+        let (mant, exp) = match b.find(|c| c == 'e' || c == 'E') { Some(k) => (&b[..k], Some(&b[k + 1..])), None => (b, None) };
+        let digits = mant.chars().filter(|c| c.is_ascii_digit()).count();
+        let ok_m = digits > 0 && mant.chars().all(|c| c.is_ascii_digit() || c == '.') && mant.matches('.').count() <= 1;
+        let ok_e = exp.map(|e| { let e = e.strip_prefix('-').or_else(|| e.strip_prefix('+')).unwrap_or(e); !e.is_empty() && e.chars().all(|c| c.is_ascii_digit()) }).unwrap_or(true);
+        ok_m && ok_e
+    };
+    while i < cs.len() {
+        let c = cs[i];
+        if c.is_whitespace() { i += 1; continue; }
+        if c == '#' { while i < cs.len() && cs[i] != '\n' { i += 1; } continue; }
+        if c == '"' { i += 1; while i < cs.len() && cs[i] != '"' { i += 1; } i += 1; out.push(json!({"c": "s"})); continue; }
+        let st = i;
+        while i < cs.len() && !cs[i].is_whitespace() { i += 1; }
+        let w: String = cs[st..i].iter().collect();
+        if w == ";" { out.push(json!({"c": ";"})); }
+        else if is_num(&w) { out.push(json!({"c": "n", "u": w.to_uppercase()})); }
+        else { out.push(json!({"c": "w", "u": w.to_uppercase()})); }
+    }
+    out
+}
+/// {toks, kw, sep, sp}: tokens of the rendered text and, if the crate reads it, of the text the crate writes for it
+fn lef_tokens(case: &Value) -> Value {
+    let text = render(geta(case, "toks"), geti(case, "kw") as u32, geti(case, "sep") as u32, geti(case, "sp") as u32);
+    let mut o = json!({"id": id(case), "outcome": "ok", "rendered": indep_tokens(&text)});
+    if let Ok(Ok(lib)) = guarded(|| parse_str(&text)) {
+        if let Ok(Ok(w)) = guarded(|| lib.to_string()) { o["written"] = json!(indep_tokens(&w)); o["written_text"] = trunc(&json!(w)); }
+    }
+    o
 }
